@@ -8,11 +8,15 @@ def check(run):
     r = "C01-walk"
     run.rule(r, "the pointer operator() calls / resolve returns is the documented slots-then-strides walk over exactly the virtual arguments",
              floor=len(pols) * len(shapes))
+    from . import c09
+    r6 = "C01-vptr"
+    run.rule(r6, "object -> v-table pointer: dynamic_vptr reads the policy's table at the (hashed) dynamic type id; publish_vptrs writes each class's pointer at the (hashed) id of each of its ids", floor=12)
     variants = [True] if run.tier == "quick" else [True, False]
     for nd in variants:
         units = callpath.build_units(run, pols, shapes, ndebug=nd)
         for u in units:
             walk.check_unit(run, u, r)
+            c09.table_reader_rule(run, u, r6)
     if run.tier == "thorough":
         from .. import irq
         n = 0
@@ -35,6 +39,7 @@ def check(run):
         crules.cells_rules(run, r3, None, None, ast)
         crules.applicable_rules(run, r4, ast)
         crules.table_rules(run, r5, ast)
+        c09.table_writer_rule(run, ast, r6)
     run.assumptions += ["v-table pointer acquisition (Policy::dynamic_vptr, virtual_ptr::_vptr) is an opaque leaf here; its content is decided by C09 / C15",
                         "the tables themselves (which definition sits in which cell) are values computed by update: not decided"]
     return run.finish(level="other", explanation="Symbolic summary (LLVM IR after mem2reg, library calls substituted) of the function pointer that "
